@@ -675,6 +675,21 @@ def table_unfold(st, d, legacy):
 dec_scale = z3.Function('dec_scale', Obj, z3.IntSort())          # number of decimal places (negated exponent, >= 0)
 dec_unscaled = z3.Function('dec_unscaled', Obj, z3.IntSort())    # the unscaled integer: value == unscaled / 10^scale
 dec_finite = z3.Function('dec_finite', Obj, z3.BoolSort())
+dec_exp = z3.Function('dec_exp', Obj, z3.IntSort())              # as_tuple().exponent of a finite decimal
+dec_coeff = z3.Function('dec_coeff', Obj, z3.IntSort())          # signed coefficient: value == coeff * 10^exp
+dec_intval = z3.Function('dec_intval', Obj, z3.IntSort())        # int(value) when the exponent is >= 0 (A5)
+
+
+def dec_facts(st, t):
+    """How (scale, unscaled) of the grammar relate to Python's (coefficient, exponent) (A5)."""
+    key = ('dec', t.get_id())
+    if key in st.facts_done:
+        return
+    st.facts_done.add(key)
+    st.keep.append(t)
+    st.assume(z3.Implies(dec_finite(t), z3.And(
+        z3.Implies(dec_exp(t) < 0, z3.And(dec_scale(t) == -dec_exp(t), dec_unscaled(t) == dec_coeff(t))),
+        z3.Implies(dec_exp(t) >= 0, z3.And(dec_scale(t) == 0, dec_unscaled(t) == dec_intval(t))))))
 
 
 def mk_decimal(unscaled, scale):
